@@ -449,6 +449,7 @@ package wire
 //@ define stkOK(stk []frame) = forall i :: 0 <= i && i < len(stk) ==> stk[i].t != nil
 
 //@ func solve
+//@   rensures [C08] len(result.1) == 0 ==> allUsed(set, used)
 //@   requires out != nil && set.providerMap != nil && mapsOK(set.providerMap, set.srcMap)
 //@   requires provArgs(set.providerMap, given, given.Len())
 //@   modifies nothing
@@ -504,6 +505,9 @@ package wire
 //@ define allBind(set *ProviderSet, used []*providerSetSrc, n int) = forall i :: 0 <= i && i < n ==> hitBind(used, set.Bindings[i])
 //@ define hitFld(used []*providerSetSrc, x *Field) = exists u :: 0 <= u && u < len(used) && used[u].Field == x
 //@ define allFld(set *ProviderSet, used []*providerSetSrc, n int) = forall i :: 0 <= i && i < n ==> hitFld(used, set.Fields[i])
+// C08: solve succeeds only on a path on which verifyArgsUsed accepted the list of used sources
+// (a `rensures`: it is asserted at EVERY return of solve, so an exit path that bypasses the check fails).
+//@ define allUsed(set *ProviderSet, used []*providerSetSrc) = allImp(set, used, len(set.Imports)) && allProv(set, used, len(set.Providers)) && allVal(set, used, len(set.Values)) && allBind(set, used, len(set.Bindings)) && allFld(set, used, len(set.Fields))
 //@ func verifyArgsUsed
 //@   modifies nothing
 //@   ensures [C08] len(result) == 0 <==> allImp(set, used, len(set.Imports)) && allProv(set, used, len(set.Providers)) && allVal(set, used, len(set.Values)) && allBind(set, used, len(set.Bindings)) && allFld(set, used, len(set.Fields))
